@@ -268,6 +268,28 @@ def gen(rng, tier):
         seqs, orf = orf_seqs(rng, n=rng.randint(40, 90))
         yield det(fasta(seqs), ["phase", "--unaligned", "-l", "phase.log"], rng, "phase-many", None, nruns + 1)
         yield det(fasta(seqs), ["phasent", "--unaligned", "-l", "phase.log"], rng, "phasent-many", None, nruns)
+    # --- distances with many pairs and several workers: related rows (defined distances of different sizes) next to
+    # unrelated rows (saturated pairs, replaced by a value computed from the whole matrix) ----------------------------
+    for _ in range(3 if quick else 20):
+        n = rng.randint(20, 44)
+        L = rng.randint(40, 80)
+        base = [rng.choice("ACGT") for _ in range(L)]
+        rows = []
+        for i in range(n - 3):
+            q = list(base)
+            for j in rng.sample(range(L), rng.randint(0, L // 3)):
+                q[j] = rng.choice("ACGT")
+            rows.append(("r%02d" % i, "".join(q)))
+        comp = {"A": "C", "C": "G", "G": "T", "T": "A"}
+        far = [comp[c] for c in base]
+        rows.append(("z0", "".join(far)))
+        rows.append(("z1", "".join(comp[c] for c in far)))
+        rows.append(("z2", "".join(rng.choice("ACGT") for _ in range(L))))
+        rng.shuffle(rows)
+        for m in rng.sample(["jc", "k2p", "f81", "f84", "tn93"], 2):
+            yield det(fasta(rows), ["compute", "distance", "-m", m], rng, "distance-saturated-pairs-" + m, None, nruns + 3)
+        yield det(fasta(rows), ["build", "distboot", "-m", "jc", "-n", "3", "--seed", str(rng.randint(0, 10 ** 6)), "-o", "boot.txt"],
+                  rng, "distboot-saturated-pairs", None, nruns + 1)
     # --- ties: majority / consensus over columns with ties, repeated ----------------------------------
     for _ in range(6 if quick else 60):
         n = rng.choice([2, 4, 6])
